@@ -272,7 +272,7 @@ func program(r *mc.Run, interleaved bool, calls int, overSCION bool) func(x *mc.
 }
 
 // serverSide: requests a third-party client may send (1 cookie, 0..7
-// placeholders with short or full-size bodies) straight to the listener.
+// placeholders with short or full-size bodies, unique identifiers of 32..400 bytes) straight to the listener.
 func serverSide(r *mc.Run) func(x *mc.X) {
 	return func(x *mc.X) {
 		world.Run(r.T, x, func(w *world.World) {
@@ -283,7 +283,9 @@ func serverSide(r *mc.Run) func(x *mc.X) {
 			short := x.Choose(2, "placeholder-body") == 1
 			ck := sess.Cookie()
 			var pkt nts.Packet
-			pkt.UniqueID.ID = bytes.Repeat([]byte{3}, 32)
+			// the identifier is echoed in the reply and takes room from the cookies
+			idLen := []int{32, 36, 40, 64, 128, 400}[x.Choose(6, "unique-id-length")]
+			pkt.UniqueID.ID = bytes.Repeat([]byte{3}, idLen)
 			pkt.Cookies = []nts.Cookie{{Cookie: ck}}
 			body := make([]byte, len(ck))
 			if short {
@@ -293,7 +295,7 @@ func serverSide(r *mc.Run) func(x *mc.X) {
 				pkt.CookiePlaceholders = append(pkt.CookiePlaceholders, nts.CookiePlaceholder{Cookie: body})
 			}
 			pkt.Auth.Key = sess.C2S
-			if 48+36+128+nph*(4+len(body))+40 > nts.MaxPacketLen {
+			if 48+4+idLen+128+nph*(4+len(body))+40 > nts.MaxPacketLen {
 				return // cannot be encoded into one packet
 			}
 			buf := kit.ClientHeader(w.Clock.Peek())
@@ -302,8 +304,11 @@ func serverSide(r *mc.Run) func(x *mc.X) {
 			replies := nw.ToServer(&vnet.Datagram{From: from, To: nw.SrvAddr, Data: buf})
 			w.CheckPanics()
 			x.Transitions++
+			if (nts.MaxPacketLen-48-(4+(idLen+3)&^3)-40)/128 < 1 && len(replies) == 0 {
+				return // no reply with a cookie fits into a packet: the request is refused
+			}
 			if len(replies) != 1 {
-				x.Failf("no-reply-to-authenticated-request", "%d replies to a request with %d placeholders", len(replies), nph)
+				x.Failf("no-reply-to-authenticated-request", "%d replies to a request with %d placeholders and a %d byte identifier", len(replies), nph, idLen)
 			}
 			rp := replies[0]
 			if len(rp.Data) > nts.MaxPacketLen {
@@ -319,7 +324,7 @@ func serverSide(r *mc.Run) func(x *mc.X) {
 				x.Failf("reply-not-authenticable", "reply to 1 cookie + %d placeholders (%d bytes): %v", nph, len(rp.Data), e)
 			}
 			got := len(scratch.VerifData().Cookie)
-			fits := (nts.MaxPacketLen - 48 - 36 - 40) / 128
+			fits := (nts.MaxPacketLen - 48 - (4 + (idLen+3)&^3) - 40) / 128
 			want := min(1+nph, fits)
 			if got != want {
 				x.Failf("reply-cookie-count", "request asked for %d cookies, %d fit, reply carries %d", 1+nph, fits, got)
